@@ -9,6 +9,7 @@ import J1939.Model.Dll21
 import J1939.Model.Ca
 import J1939.Model.Dll22
 import J1939.Model.Listener
+import J1939.DriverDm14
 namespace J1939.Driver
 open J1939 J1939.Gen
 
@@ -53,6 +54,7 @@ structure St where
   d21  : List D21St := []
   cas  : List Ca.Ca := []
   d22  : List D22St := []
+  m14  : List Driver14.NodeSt := []
 deriving Inhabited
 
 def showOptNat : Option Nat → String
@@ -361,7 +363,11 @@ def step (st : St) (line : String) : St × List String :=
       | none => (st, ["reject"])
       | some (lamps, dtcs) => (st, [s!"lamps {showList lamps} dtcs {showList (dtcs.flatMap fun d => [d.spn, d.fmi, d.oc])}"])
     | none => (st, ["bad-args"])
-  | _ => (st, ["bad-op"])
+  | toks =>
+    if (toks.headD "").startsWith "m14." then
+      let (m, o) := Driver14.step st.m14 toks
+      ({ st with m14 := m }, o)
+    else (st, ["bad-op"])
 
 partial def loop (h : IO.FS.Stream) (out : IO.FS.Stream) (st : St) : IO Unit := do
   let line ← h.getLine
